@@ -337,17 +337,19 @@ def rejected_ops(h, m, env):
         return "add() with two conflicting names accepted"
     except Exception:
         pass
-    for how in ("named", "arg"):
+    for how in ("named", "arg", "setattr"):
         before = dict(m.namespace)
         try:
             if how == "named":
                 m.add(h.Signal(name=""))
-            else:
+            elif how == "arg":
                 m.add(h.Signal(), name="")
-            return "add() under the empty name accepted"
+            else:
+                setattr(m, "", h.Signal())
+            return f"the empty name accepted ({how})"
         except Exception:
             if dict(m.namespace) != before:
-                return "rejected add() under the empty name still changed the namespace"
+                return "a rejected addition under the empty name still changed the namespace"
     for n in list(m.namespace)[:2]:
         try:
             delattr(m, n)
@@ -479,6 +481,11 @@ def _bundle_history(hist):
                 return (f"refused deletion of {target!r} still changed the Bundle", len(hist))
         except Exception as e:
             return (f"after the refused deletion of {target!r} the Bundle is broken: {short_exc(e)}", len(hist))
+    try:
+        setattr(bd, "", h.Signal())
+        return ("setattr of a bundle member under the empty name accepted", len(hist))
+    except Exception:
+        pass
     try:
         bd.add(h.Signal(name=""))
         return ("add() under the empty name accepted by a Bundle", len(hist))
